@@ -398,8 +398,10 @@ impl MDBShardFile {
             cas_index += 1 + ci.chunks.len();
         }
 
-        read_truncated_hashes.sort_by_key(|s| s.0);
-        truncated_hashes.sort_by_key(|s| s.0);
+        // Sort on the full entry: equal truncated hashes (the same chunk in several xorbs) may
+        // legitimately be stored in any relative order.
+        read_truncated_hashes.sort();
+        truncated_hashes.sort();
 
         assert_eq!(read_truncated_hashes, truncated_hashes);
     }
